@@ -4,9 +4,14 @@ Model: coq/Model/SweepM.v (line-by-line model over Q of PersLandscapeExact.compu
 ``sweep true`` = pinned code with the repeated-bar shortcut, ``sweep false`` = shortcut-free, plus the
 hom_deg / trailing-infinite-bar glue ``exact_landscape``).  Theorems: coq/Properties/C03.v.
 Tie: every generated diagram is run through the implementation (critical_pairs as exact rationals)
-and through the model inside Coq (vm_compute, Corr/SweepCorr.v: check_case); independently the
-DEFINITION (k-th largest tent) is evaluated in exact integer arithmetic on the implementation's
-output at a set of abscissae that determines both piecewise-linear functions completely.
+and through the model inside Coq (vm_compute, Corr/SweepCorr.v: check_case, which also compares the
+guarded hook trace with the model's shortcut_trace; agree_verdict_certifies_output proves that a
+VAgree answer certifies the output); independently the DEFINITION (k-th largest tent) is evaluated in
+exact integer arithmetic on the implementation's output at a set of abscissae that determines both
+piecewise-linear functions completely (predicate), and once more inside Coq with land / pl_eval
+(Corr/SweepCorr.v: spec_twin); the two spec evaluations must agree with each other.
+Known finding C03-dup-shortcut: attributed only if the hook trace says the shortcut fired AND the
+output equals the Legacy model (finding_of).
 """
 import json
 import math
@@ -30,10 +35,11 @@ THEOREMS = [
 RULE = ("exact family: bars with integer / half-integer endpoints (scaled by 2^k, k in -20..20, translated), "
         "1-8 bars, classes {single, nested, overlapping, disjoint, touching, equal_births, equal_deaths, repeated, "
         "collision (bars the sweep itself creates collide with input bars), random, scale, trailing_inf, homdeg, "
-        "(thorough: 9-12 bars in 15% of the cases, plus every multiset of <= 3 integer bars in [0,6]) "
-        "homdeg_oob, empty, repr (int array / nested list input)}, input order shuffled with probability 1/2; "
+        "homdeg_oob, empty, repr (int array / nested list input), translated (offsets 2^20..2^30, 1e6, 1e7, 1e9), "
+        "tinygap (gaps / overlaps of 0..2 between bars at coordinates 1e6..1e9)}, input order shuffled with probability 1/2 "
+        "(thorough: 9-12 bars in 15% of the cases, plus every multiset of <= 3 integer bars in [0,6]); "
         "tolerance family 'offgrid': random doubles with ties made by copying coordinates, compared within "
-        "2^-40 x largest magnitude; "
+        "2^-46 x largest magnitude; "
         "non-trivial = the selected diagram has >= 2 finite bars of which at least two have intersecting supports "
         "and the property predicate passes; distinct = distinct JSON input")
 TRUSTED_BASE = [
@@ -191,9 +197,35 @@ def _offgrid_bars(rng, n):
     return out[:8]
 
 
+OFFSETS = [2.0 ** 20, 2.0 ** 25, 2.0 ** 30, 1e6, 1e7, -(2.0 ** 22), 1e9]
+
+
+def _tinygap_bars(rng, n):
+    """coordinates of size 1e6 .. 1e9 with gaps / overlaps |b' - d| in {0, 1/2, 1, 2}: a comparison that is
+    tolerant relative to the coordinate size (np.isclose, rtol) confuses Cases I/II/III here.  Still exact:
+    quarter-integers below 2^32."""
+    base = rng.choice([1e6, 1e7, 2.0 ** 24, 1e9, 2.0 ** 30])
+    long_bars = rng.random() < 0.5
+    b, out = (0.0 if long_bars and rng.random() < 0.5 else base), []
+    for _ in range(n):
+        ln = float(rng.choice([base, base / 2, 2 * base])) if long_bars else rng.randint(2, 16) / 2.0
+        out.append([b, b + ln])
+        g = rng.choice([-2.0, -1.0, -0.5, 0.0, 0.0, 0.5, 1.0, 2.0])
+        b = b + ln + g
+        if rng.random() < 0.25:            # a short bar around the junction as well
+            out.append([b - rng.choice([0.5, 1.0, 2.0]), b + rng.choice([0.5, 1.0, 3.0])])
+    for _ in range(rng.randint(0, 2)):     # near-copies: endpoints differ by 0 .. 1 from an existing bar
+        p = rng.choice(out)
+        q = [p[0] + rng.choice([0.0, 0.0, 0.5, -0.5, 1.0]), p[1] + rng.choice([0.0, 0.0, 0.5, -0.5, -1.0])]
+        if q[0] < q[1]:
+            out.append(q)
+    return out[:10]
+
+
 CLASSES = ["single", "nested", "overlapping", "disjoint", "touching", "equal_births", "equal_deaths",
            "repeated", "repeated", "collision", "collision", "random", "random", "random", "scale",
-           "trailing_inf", "homdeg", "homdeg_oob", "empty", "repr", "offgrid", "offgrid"]
+           "trailing_inf", "homdeg", "homdeg_oob", "empty", "repr", "offgrid", "offgrid",
+           "translated", "translated", "tinygap", "tinygap"]
 
 
 def _one_case(rng, cls=None, big=False):
@@ -201,8 +233,20 @@ def _one_case(rng, cls=None, big=False):
     n = rng.randint(1, 8) if rng.random() < 0.75 else rng.randint(2, 5)
     if big and rng.random() < 0.15:
         n = rng.randint(9, 12)
+    if cls == "tinygap":
+        bars = _tinygap_bars(rng, min(n, 6))
+        if rng.random() < 0.5:
+            rng.shuffle(bars)
+        return {"cls": cls, "dgms": [bars], "hom_deg": 0, "repr": "float"}
     if cls == "offgrid":
         bars = _offgrid_bars(rng, min(n, 6))
+        if rng.random() < 0.3:             # large coordinates, small features (kept >= 2000 x tolerance)
+            off = rng.choice([1e6, 12345678.9, 3.3e8])
+            m = max(abs(v) for b, d in bars for v in (b, d))
+            if min(d - b for b, d in bars) > 1e-3 * m:
+                off = off * max(1.0, m / 10.0)
+                bars = [[b + off, d + off] for b, d in bars]
+                bars = [[b, d] for b, d in bars if d - b > 1e-9 * off]
         rng.shuffle(bars)
         if rng.random() < 0.2:
             bars.append([rng.uniform(0, 1), "inf"])
@@ -213,12 +257,15 @@ def _one_case(rng, cls=None, big=False):
     bars = _class_bars(rng, base, n)
     if rng.random() < 0.5:
         rng.shuffle(bars)
-    if cls == "scale":
+    if cls == "translated":
+        t = rng.choice(OFFSETS)
+        bars = [[b + t, d + t] for b, d in bars]
+    elif cls == "scale":
         s = 2.0 ** rng.choice([-20, -7, -1, 1, 6, 20])
         t = float(rng.choice([0, 0, -3, -40, 17]))
         bars = [[(b + t) * s, (d + t) * s] for b, d in bars]
     elif rng.random() < 0.15:
-        t = float(rng.choice([-2, -7.5, 5]))
+        t = float(rng.choice([-2, -7.5, 5, 2.0 ** 21, 1e6]))
         bars = [[b + t, d + t] for b, d in bars]
     rep = "float"
     dgms, h = [bars], 0
@@ -458,10 +505,11 @@ def predicate(c, o):
 
 
 def _tol_of(bars):
-    """absolute tolerance of the off-grid family: 2^-40 times the largest coordinate magnitude (>= 1 ulp-scale
-    slack for the one rounding in (b+d)/2 and (d-b)/2; eight orders of magnitude below any bar length generated)"""
+    """absolute tolerance of the off-grid family: 2^-46 times the largest coordinate magnitude (64 ulp of slack
+    for the single rounding in (b+d)/2 and (d-b)/2; the generator keeps every bar length and gap above
+    2000 x this tolerance, so a wrong depth cannot hide inside it)"""
     m = max([abs(v) for b, d in bars for v in (b, d)] + [Fraction(1, 2 ** 20)])
-    return m / 2 ** 40
+    return m / 2 ** 46
 
 
 def _predicate_tol(bars, cps):
